@@ -85,10 +85,15 @@ def c_ipkg(f):
 def gen_pool(rng, n):
     from pkgcore.test.misc import FakePkg, FakeRepo
     seen, pkgs, fields = set(), [], []
+    fixed = [("a/b", "0.5", "0"), ("a/b", "1.0", "0"), ("a/b", "1.0-r1", "1"), ("a/b", "10", "0"),
+             ("a/b", "1.5", "1"), ("a/b", "1.00", "0")]          # the corpus entries' witnesses
     while len(pkgs) < n:
-        name = rng.choice(NAMES[:2] if rng.random() < 0.8 else NAMES)
-        fv = rng.choice(VERS) + rng.choice(REVS)
-        slot = rng.choice(SLOTS)
+        if fixed:
+            name, fv, slot = fixed.pop(0)
+        else:
+            name = rng.choice(NAMES[:2] if rng.random() < 0.8 else NAMES)
+            fv = rng.choice(VERS) + rng.choice(REVS)
+            slot = rng.choice(SLOTS)
         if (name, fv, slot) in seen:
             continue
         seen.add((name, fv, slot))
